@@ -35,6 +35,14 @@ def render_pat(toks):
     return " ".join(out)
 
 
+def respace(text, rnd):
+    words = text.split(" ")
+    out = words[0]
+    for w in words[1:]:
+        out += rnd.choice(["  ", "\t", " \t ", "   ", " "]) + w
+    return out
+
+
 # ---------------------------------------------------------------- lexer of shipped rule rows into tokens
 class Outside(Exception):
     pass
@@ -314,16 +322,23 @@ def run(ctx):
             raise core.Machinery("S2C emission incomplete: %d patterns %d rows, %d states" % (len(pats), len(rows), r.distinct))
         ctx.sample({"kind": "s2c", "pattern": render_pat(pats[len(pats) // 2]), "row": rows[len(rows) // 2], "prefix": prefix})
         # full product through the bare compiler; a sampled product through the four rulebook compilers
-        cap = None if not quick else 90000
-        pairs = list(itertools.product(range(len(pats)), range(len(rows))))
-        if cap and len(pairs) > cap:
-            pairs = rnd.sample(pairs, cap)
-        for pi, ri in pairs:
+        # (TLC has checked the laws on the whole product; the real code sees the whole product where it fits the cap, a seeded sample otherwise)
+        cap = 90000 if quick else 500000
+        total = len(pats) * len(rows)
+        idx = range(total) if total <= cap else sorted(rnd.sample(range(total), cap))
+        if total > cap:
+            ctx.cov["exhaustive"] = False
+        for x in idx:
+            pi, ri = divmod(x, len(rows))
             p = pats[pi]
             text = render_pat(p)
             emit("syntax", p, False, prefix, rows[ri], observe("syntax", text, p, False, prefix, rows[ri]), "s2c")
         for pi, p in enumerate(pats):
             text = render_pat(p)
+            # a rule line is a sequence of words: how its author separated them (several blanks, tabs, hand-aligned columns) carries no
+            # meaning; every other pattern reaches the compilers in such a spelling
+            if pi % 2 and len(p) > 1:
+                text = respace(text, rnd)
             comp = {}
             try:
                 comp["patching"] = list(compile_patching_text(text + "\n", vend)["local"].values())[0]
